@@ -33,4 +33,8 @@ theorem consts_eq : RawConsts.slash = cSlash.toNat ∧ RawConsts.quote = cQuote.
 theorem output_format_eq : RawConsts.outItemSep = [32] ∧ RawConsts.outRecordIndent = [32] ∧
     RawConsts.outKeywordSep = [] ∧ RawConsts.outColumns = OpmVerif.DeckWrite.columns := by decide
 
+/-- every code keyword of the source tree has a non-empty end string without a newline —
+the hypothesis of `cleanSlow_length_le` (the destination buffer of `clean` is not overrun). -/
+theorem codeKeywords_ok : ∀ kw ∈ RawConsts.codeKeywords, kw.2 ≠ [] ∧ ∀ b ∈ kw.2, b ≠ 10 := by decide
+
 end OpmVerif.Lex
